@@ -420,19 +420,20 @@ template <> struct Tr<std::nullptr_t> {
   static void fill(std::nullptr_t& o, Tape&) { o = nullptr; }
   static void ora(Out& o, const std::nullptr_t&) { o.null(); }
 };
+static void fill_bytes(unsigned char* b, size_t n, Tape& t) {
+  uint64_t seed = t.next();
+  switch (seed % 4) {
+    case 0: for (size_t i = 0; i < n; ++i) b[i] = static_cast<unsigned char>(i + 1); break;  // 0x01.. : values below 0x10 present
+    case 1: for (size_t i = 0; i < n; ++i) b[i] = static_cast<unsigned char>(0xff - 7 * i); break;
+    case 2: { uint64_t h = seed; for (size_t i = 0; i < n; ++i) { h = h * 6364136223846793005ULL + 1442695040888963407ULL; b[i] = static_cast<unsigned char>(h >> 56); } break; }
+    default: { uint64_t w = 0; for (size_t i = 0; i < n; ++i) { if (i % 8 == 0) w = t.next(); b[i] = static_cast<unsigned char>(w >> (8 * (i % 8))); } }
+  }
+}
 template <size_t N> struct Tr<Opaque<N>> {
   static constexpr Kind kind = K_HEX;
   static std::string name() { return "opaque<" + std::to_string(N) + ">"; }
   static bool null(const Opaque<N>&) { return false; }
-  static void fill(Opaque<N>& o, Tape& t) {
-    uint64_t seed = t.next();
-    switch (seed % 4) {
-      case 0: for (size_t i = 0; i < N; ++i) o.b[i] = static_cast<unsigned char>(i + 1); break;       // 0x01.. : low values present
-      case 1: for (size_t i = 0; i < N; ++i) o.b[i] = static_cast<unsigned char>(0xff - 7 * i); break;
-      case 2: { uint64_t h = seed; for (size_t i = 0; i < N; ++i) { h = h * 6364136223846793005ULL + 1442695040888963407ULL; o.b[i] = static_cast<unsigned char>(h >> 56); } break; }
-      default: { uint64_t w = 0; for (size_t i = 0; i < N; ++i) { if (i % 8 == 0) w = t.next(); o.b[i] = static_cast<unsigned char>(w >> (8 * (i % 8))); } }
-    }
-  }
+  static void fill(Opaque<N>& o, Tape& t) { fill_bytes(o.b, N, t); }
   static void ora(Out& o, const Opaque<N>& v) { o.hex(&v, N); }
 };
 template <> struct Tr<Padded> {
@@ -621,7 +622,7 @@ struct Mock {
   MAKE_MOCK1(f_intp, void(int*));
   MAKE_MOCK1(f_up, void(std::unique_ptr<int> const&));
   MAKE_MOCK1(f_sp, void(std::shared_ptr<int>));
-  MAKE_MOCK1(f_opt, void(std::optional<int*>));
+  MAKE_MOCK1(f_opt, void(std::optional<int*> const&));
   MAKE_MOCK1(f_np, void(std::nullptr_t));
   MAKE_MOCK1(f_vpc, void(vpc_t const&));
   MAKE_MOCK1(f_tnull, void(tnull_t const&));
@@ -658,7 +659,7 @@ S_E2E_EXP_RET(cstr, f_cstr, r_cstr)
 S_E2E_EXP(int*, f_intp)
 S_E2E(up_t, f_up)
 S_E2E_EXP_RET(sp_t, f_sp, r_sp)
-S_E2E_EXP(opt_t, f_opt)
+S_E2E(opt_t, f_opt)  // by reference and never copied into an expectation: the dump shows padding bytes, which a copy need not keep
 S_E2E(np_t, f_np)
 S_E2E_EXP_RET(vpc_t, f_vpc, r_vpc)
 S_E2E(tnull_t, f_tnull)
@@ -718,110 +719,128 @@ template <class T> struct Holder {
   T& get() { return p->v; }
 };
 
-template <class T> static bool has_text(const std::string& hay, const std::string& pre, const Out& o, const std::string& post) {
+static bool has_text(const std::string& hay, const std::string& pre, const Out& o, const std::string& post) {
   if (hay.find(pre + o.text[0] + post) != std::string::npos) return true;
   return o.has_ows && hay.find(pre + o.text[1] + post) != std::string::npos;
 }
 
-template <class T> static Verdict e2e_check(const CaseIn& c, CaseInfo& info, const T& v, Tape& tp) {
-  Verdict r;
+// Type-erased entry points of one end-to-end sample type (keeps the per-type code small).
+struct E2EOps {
+  bool has = false, has_exp = false, has_ret = false;
+  void (*call)(Mock&, const void*) = nullptr;
+  Exp (*allow)(Mock&) = nullptr;
+  Exp (*expect)(Mock&, const void*) = nullptr;
+  Exp (*ret)(Mock&, const void*) = nullptr;
+  void (*call_ret)(Mock&) = nullptr;
+};
+template <class T> static E2EOps make_ops() {
+  E2EOps ops;
   if constexpr (E2E<T>::has) {
-    int mode = c.mode;
-    if (mode == M_EXPECTED && !E2E<T>::has_exp) mode = M_NOMATCH;
-    if (mode == M_RETURN && !E2E<T>::has_ret) mode = M_TRACE;
-    const Out& o = info.o;
-    g_reports.clear();
-    Mock m;
-    if (mode == M_NOMATCH) {
-      bool threw = false;
-      try { E2E<T>::call(m, v); } catch (fatal_report&) { threw = true; }
-      info.e2e_done = mode;
-      if (!threw || g_reports.size() != 1) { r.ok = false; r.why = "end-to-end: call without expectation gave " + std::to_string(g_reports.size()) + " reports"; return r; }
-      if (!has_text<T>(g_reports[0], "  param  _1 == ", o, "\n")) {
-        r.ok = false;
-        r.why = "end-to-end: no-match report lacks the parameter line\nexpected line: \"  param  _1 == " + esc(o.text[0]) + "\"\nreport: \"" + esc(g_reports[0]) + "\"";
-      }
-    } else if (mode == M_TRACE) {
-      Tracer t;
-      Exp e = E2E<T>::allow(m);
-      E2E<T>::call(m, v);
-      info.e2e_done = mode;
-      if (!g_reports.empty() || t.recs.size() != 1) { r.ok = false; r.why = "end-to-end: traced call gave " + std::to_string(t.recs.size()) + " records, " + std::to_string(g_reports.size()) + " reports"; return r; }
-      if (!has_text<T>(t.recs[0], "  param  _1 == ", o, "\n")) {
-        r.ok = false;
-        r.why = "end-to-end: trace record lacks the parameter line\nexpected line: \"  param  _1 == " + esc(o.text[0]) + "\"\nrecord: \"" + esc(t.recs[0]) + "\"";
-      }
-    } else if (mode == M_EXPECTED) {
-      if constexpr (E2E<T>::has_exp) {
-        Holder<T> h2;
-        Tr<T>::fill(h2.get(), tp);
-        Out o2;
-        Tr<T>::ora(o2, h2.get());
-        if (h2.get() == v) { info.e2e_skipped_equal = true; return r; }
-        bool threw = false;
-        {
-          Exp e = E2E<T>::expect(m, h2.get());
-          try { E2E<T>::call(m, v); } catch (fatal_report&) { threw = true; }
-        }
-        info.e2e_done = mode;
-        if (!threw || g_reports.size() != 1) { r.ok = false; r.why = "end-to-end: mismatching call gave " + std::to_string(g_reports.size()) + " reports"; return r; }
-        if (!has_text<T>(g_reports[0], "  param  _1 == ", o, "\n") || !has_text<T>(g_reports[0], "  Expected  _1 == ", o2, "\n")) {
-          r.ok = false;
-          r.why = "end-to-end: report lacks the parameter or the expected-value line\nexpected lines: \"  param  _1 == " + esc(o.text[0]) +
-                  "\" and \"  Expected  _1 == " + esc(o2.text[0]) + "\"\nreport: \"" + esc(g_reports[0]) + "\"";
-        }
-      }
-    } else if (mode == M_RETURN) {
-      if constexpr (E2E<T>::has_ret) {
-        Tracer t;
-        Exp e = E2E<T>::ret(m, v);
-        E2E<T>::call_ret(m);
-        info.e2e_done = mode;
-        if (!g_reports.empty() || t.recs.size() != 1) { r.ok = false; r.why = "end-to-end: traced returning call gave " + std::to_string(t.recs.size()) + " records"; return r; }
-        if (!has_text<T>(t.recs[0], " -> ", o, "\n")) {
-          r.ok = false;
-          r.why = "end-to-end: trace record lacks the return value\nexpected line: \" -> " + esc(o.text[0]) + "\"\nrecord: \"" + esc(t.recs[0]) + "\"";
-        }
-      }
+    ops.has = true;
+    ops.call = [](Mock& m, const void* v) { E2E<T>::call(m, *static_cast<const T*>(v)); };
+    ops.allow = [](Mock& m) { return E2E<T>::allow(m); };
+    if constexpr (E2E<T>::has_exp) {
+      ops.has_exp = true;
+      ops.expect = [](Mock& m, const void* w) { return E2E<T>::expect(m, *static_cast<const T*>(w)); };
     }
-  } else {
-    (void)c; (void)info; (void)v; (void)tp;
+    if constexpr (E2E<T>::has_ret) {
+      ops.has_ret = true;
+      ops.ret = [](Mock& m, const void* w) { return E2E<T>::ret(m, *static_cast<const T*>(w)); };
+      ops.call_ret = [](Mock& m) { E2E<T>::call_ret(m); };
+    }
+  }
+  return ops;
+}
+
+// v: the value; w/o2: a second, different value and its rendering (expected mode only).
+static Verdict e2e_run(const E2EOps& ops, int mode, CaseInfo& info, const void* v, const void* w, const Out* o2) {
+  Verdict r;
+  const Out& o = info.o;
+  g_reports.clear();
+  Mock m;
+  if (mode == M_NOMATCH) {
+    bool threw = false;
+    try { ops.call(m, v); } catch (fatal_report&) { threw = true; }
+    info.e2e_done = mode;
+    if (!threw || g_reports.size() != 1) { r.ok = false; r.why = "end-to-end: call without expectation gave " + std::to_string(g_reports.size()) + " reports"; return r; }
+    if (!has_text(g_reports[0], "  param  _1 == ", o, "\n")) {
+      r.ok = false;
+      r.why = "end-to-end: no-match report lacks the parameter line\nexpected line: \"  param  _1 == " + esc(o.text[0]) + "\"\nreport: \"" + esc(g_reports[0]) + "\"";
+    }
+  } else if (mode == M_TRACE) {
+    Tracer t;
+    Exp e = ops.allow(m);
+    ops.call(m, v);
+    info.e2e_done = mode;
+    if (!g_reports.empty() || t.recs.size() != 1) { r.ok = false; r.why = "end-to-end: traced call gave " + std::to_string(t.recs.size()) + " records, " + std::to_string(g_reports.size()) + " reports"; return r; }
+    if (!has_text(t.recs[0], "  param  _1 == ", o, "\n")) {
+      r.ok = false;
+      r.why = "end-to-end: trace record lacks the parameter line\nexpected line: \"  param  _1 == " + esc(o.text[0]) + "\"\nrecord: \"" + esc(t.recs[0]) + "\"";
+    }
+  } else if (mode == M_EXPECTED) {
+    bool threw = false;
+    {
+      Exp e = ops.expect(m, w);
+      try { ops.call(m, v); } catch (fatal_report&) { threw = true; }
+    }
+    info.e2e_done = mode;
+    if (!threw || g_reports.size() != 1) { r.ok = false; r.why = "end-to-end: mismatching call gave " + std::to_string(g_reports.size()) + " reports"; return r; }
+    if (!has_text(g_reports[0], "  param  _1 == ", o, "\n") || !has_text(g_reports[0], "  Expected  _1 == ", *o2, "\n")) {
+      r.ok = false;
+      r.why = "end-to-end: report lacks the parameter or the expected-value line\nexpected lines: \"  param  _1 == " + esc(o.text[0]) +
+              "\" and \"  Expected  _1 == " + esc(o2->text[0]) + "\"\nreport: \"" + esc(g_reports[0]) + "\"";
+    }
+  } else if (mode == M_RETURN) {
+    Tracer t;
+    Exp e = ops.ret(m, v);
+    ops.call_ret(m);
+    info.e2e_done = mode;
+    if (!g_reports.empty() || t.recs.size() != 1) { r.ok = false; r.why = "end-to-end: traced returning call gave " + std::to_string(t.recs.size()) + " records"; return r; }
+    if (!has_text(t.recs[0], " -> ", o, "\n")) {
+      r.ok = false;
+      r.why = "end-to-end: trace record lacks the return value\nexpected line: \" -> " + esc(o.text[0]) + "\"\nrecord: \"" + esc(t.recs[0]) + "\"";
+    }
   }
   return r;
 }
 
-template <class T> static Verdict check_one(const CaseIn& c, CaseInfo& info) {
+template <class T> static Verdict e2e_check(const CaseIn& c, CaseInfo& info, const T& v, Tape& tp) {
+  if constexpr (E2E<T>::has) {
+    static const E2EOps ops = make_ops<T>();
+    int mode = c.mode;
+    if (mode == M_EXPECTED && !ops.has_exp) mode = M_NOMATCH;
+    if (mode == M_RETURN && !ops.has_ret) mode = M_TRACE;
+    if constexpr (E2E<T>::has_exp) {
+      if (mode == M_EXPECTED) {
+        Holder<T> h2;
+        Tr<T>::fill(h2.get(), tp);
+        Out o2;
+        Tr<T>::ora(o2, h2.get());
+        if (h2.get() == v) { info.e2e_skipped_equal = true; return Verdict{}; }
+        return e2e_run(ops, mode, info, &v, &h2.get(), &o2);
+      }
+    }
+    return e2e_run(ops, mode, info, &v, nullptr, nullptr);
+  } else {
+    (void)c; (void)info; (void)v; (void)tp;
+    return Verdict{};
+  }
+}
+
+struct Observed {
+  std::string got, probe;
+  std::ios_base::fmtflags f0{}, f1{};
+  char fill0 = ' ', fill1 = ' ';
+  std::streamsize w0 = 0, w1 = 0;
+  bool good = true;
+  unsigned user_printer_calls = 0;
+};
+
+// Everything that does not depend on the value type: compare what was observed with the oracle.
+static Verdict judge(const CaseIn& c, CaseInfo& info, const Observed& ob) {
   Verdict r;
-  Holder<T> h;
-  T& v = h.get();
-  Tape tp{&c.tape};
-  Tr<T>::fill(v, tp);
-  Out& o = info.o;
-  Tr<T>::ora(o, v);
-  info.tape_used = tp.i;
+  const Out& o = info.o;
   info.value_desc = o.canon;
-  const bool top_null = Tr<T>::null(v);
-  const Kind k = Tr<T>::kind;
-  info.top = top_null ? T_NULL : k == K_STREAM ? T_STREAM : k == K_HEX ? T_HEX : k == K_COMP ? T_COMP : T_USER;
-
-  std::ostringstream os;
-  apply_state(os, c.st);
-  const auto f0 = os.flags();
-  const char fill0 = os.fill();
-  const auto w0 = os.width();
-  const unsigned up0 = g_user_printer_calls;
-
-  trompeloeil::print(os, v);
-
-  const std::string got = os.str();
-  const auto f1 = os.flags();
-  const char fill1 = os.fill();
-  const auto w1 = os.width();
-  const bool good = os.good();
-  os << 255;
-  os << true;
-  const std::string probe = os.str().substr(got.size());
-
   // ---- text
   std::vector<std::string> accepted;
   accepted.push_back(o.text[0]);
@@ -836,21 +855,19 @@ template <class T> static Verdict check_one(const CaseIn& c, CaseInfo& info) {
     }
   }
   size_t which = accepted.size();
-  for (size_t i = 0; i < accepted.size(); ++i) if (got == accepted[i]) { which = i; break; }
+  for (size_t i = 0; i < accepted.size(); ++i) if (ob.got == accepted[i]) { which = i; break; }
   if (which == accepted.size()) {
     r.ok = false;
     r.why = "printed text differs\nexpected: \"" + esc(accepted[0]) + "\"";
     for (size_t i = 1; i < accepted.size(); ++i) r.why += "\n      or: \"" + esc(accepted[i]) + "\"";
-    r.why += "\nactual:   \"" + esc(got) + "\"" + (good ? "" : "  (stream no longer good())");
+    r.why += "\nactual:   \"" + esc(ob.got) + "\"" + (ob.good ? "" : "  (stream no longer good())");
     return r;
   }
-  info.padded_first_token = tolerant && got != o.text[0] && got != o.text[1];
-  if (info.top == T_USER || o.user_printed) {
-    if (g_user_printer_calls - up0 != static_cast<unsigned>(o.user_printed)) {
-      r.ok = false;
-      r.why = "user printer<T> ran " + std::to_string(g_user_printer_calls - up0) + " times, expected " + std::to_string(o.user_printed);
-      return r;
-    }
+  info.padded_first_token = tolerant && ob.got != o.text[0] && ob.got != o.text[1];
+  if (ob.user_printer_calls != static_cast<unsigned>(o.user_printed)) {
+    r.ok = false;
+    r.why = "user printer<T> ran " + std::to_string(ob.user_printer_calls) + " times, expected " + std::to_string(o.user_printed);
+    return r;
   }
 
   // ---- restoration
@@ -858,29 +875,60 @@ template <class T> static Verdict check_one(const CaseIn& c, CaseInfo& info) {
   if (info.top == T_STREAM || info.top == T_HEX) {
     info.restoration_asserted = true;
     std::string want = probe_text(c.st, c.st.width);
-    if (f1 != f0 || fill1 != fill0 || w1 != w0 || probe != want) {
+    if (ob.f1 != ob.f0 || ob.fill1 != ob.fill0 || ob.w1 != ob.w0 || ob.probe != want) {
       r.ok = false;
       r.why = "stream state not restored after a " + std::string(info.top == T_STREAM ? "directly streamable" : "hex-dumped") + " value\n" +
-              "expected: flags=" + flags_text(f0) + " fill='" + fill0 + "' width=" + std::to_string(w0) + " probe(255,true)=\"" + esc(want) + "\"\n" +
-              "actual:   flags=" + flags_text(f1) + " fill='" + fill1 + "' width=" + std::to_string(w1) + " probe(255,true)=\"" + esc(probe) + "\"";
+              "expected: flags=" + flags_text(ob.f0) + " fill='" + ob.fill0 + "' width=" + std::to_string(ob.w0) + " probe(255,true)=\"" + esc(want) + "\"\n" +
+              "actual:   flags=" + flags_text(ob.f1) + " fill='" + ob.fill1 + "' width=" + std::to_string(ob.w1) + " probe(255,true)=\"" + esc(ob.probe) + "\"";
       return r;
     }
   } else if (tolerant) {
     std::string want_w = probe_text(c.st, c.st.width), want_0 = probe_text(c.st, 0);
-    info.width_consumed = w1 != w0;
-    bool wok = w1 == w0 || w1 == 0;
-    bool pok = probe == (w1 == w0 ? want_w : want_0);
-    if (f1 != f0 || fill1 != fill0 || !wok || !pok) {
+    info.width_consumed = ob.w1 != ob.w0;
+    bool wok = ob.w1 == ob.w0 || ob.w1 == 0;
+    bool pok = ob.probe == (ob.w1 == ob.w0 ? want_w : want_0);
+    if (ob.f1 != ob.f0 || ob.fill1 != ob.fill0 || !wok || !pok) {
       r.ok = false;
       r.why = std::string("flags/fill not as before after a ") + (info.top == T_NULL ? "null" : "composite") + " value (width may be consumed, nothing else)\n" +
-              "expected: flags=" + flags_text(f0) + " fill='" + fill0 + "' width=" + std::to_string(w0) + " or 0, probe(255,true)=\"" + esc(want_w) + "\" or \"" + esc(want_0) + "\"\n" +
-              "actual:   flags=" + flags_text(f1) + " fill='" + fill1 + "' width=" + std::to_string(w1) + " probe(255,true)=\"" + esc(probe) + "\"";
+              "expected: flags=" + flags_text(ob.f0) + " fill='" + ob.fill0 + "' width=" + std::to_string(ob.w0) + " or 0, probe(255,true)=\"" + esc(want_w) + "\" or \"" + esc(want_0) + "\"\n" +
+              "actual:   flags=" + flags_text(ob.f1) + " fill='" + ob.fill1 + "' width=" + std::to_string(ob.w1) + " probe(255,true)=\"" + esc(ob.probe) + "\"";
       return r;
     }
   }
+  return r;
+}
 
-  // ---- end-to-end
-  if (c.mode != M_PRINT) r = e2e_check<T>(c, info, v, tp);
+static void observe(const SState& st, Observed& ob, void (*printfn)(std::ostream&, const void*), const void* v) {
+  std::ostringstream os;
+  apply_state(os, st);
+  ob.f0 = os.flags(); ob.fill0 = os.fill(); ob.w0 = os.width();
+  const unsigned up0 = g_user_printer_calls;
+
+  printfn(os, v);  // trompeloeil::print(os, value)
+
+  ob.got = os.str();
+  ob.f1 = os.flags(); ob.fill1 = os.fill(); ob.w1 = os.width(); ob.good = os.good();
+  ob.user_printer_calls = g_user_printer_calls - up0;
+  os << 255;
+  os << true;
+  ob.probe = os.str().substr(ob.got.size());
+}
+
+template <class T> static void print_thunk(std::ostream& os, const void* p) { trompeloeil::print(os, *static_cast<const T*>(p)); }
+
+template <class T> static Verdict check_one(const CaseIn& c, CaseInfo& info) {
+  Holder<T> h;
+  T& v = h.get();
+  Tape tp{&c.tape};
+  Tr<T>::fill(v, tp);
+  Tr<T>::ora(info.o, v);
+  info.tape_used = tp.i;
+  const Kind k = Tr<T>::kind;
+  info.top = Tr<T>::null(v) ? T_NULL : k == K_STREAM ? T_STREAM : k == K_HEX ? T_HEX : k == K_COMP ? T_COMP : T_USER;
+  Observed ob;
+  observe(c.st, ob, &print_thunk<T>, &v);
+  Verdict r = judge(c, info, ob);
+  if (r.ok && c.mode != M_PRINT) r = e2e_check<T>(c, info, v, tp);
   return r;
 }
 
